@@ -13,7 +13,7 @@ from vlib import miri
 
 MODULE = "TriompheModel.Props.C02"
 
-QUICK = ["clone_read_drop_2t", "thin_offset_union_2t", "try_unwrap_vs_drop"]
+QUICK = ["clone_read_drop_2t", "thin_offset_union_2t", "try_unwrap_vs_drop", "nodrop_payload_2t"]
 ASSUME = [
     "M4 Consistent: the RC11/C++20 fragment for one location whose writes are all RMWs (coherence, release sequences in index form)",
     "M4 Protocol: safe-Rust ownership discipline (accesses through a handle lie between its birth and its release; a clone's source is alive during clone) is assumed, not derived from rustc",
